@@ -540,6 +540,23 @@ def depthFixedG (skipFn : Dirs → Vars → Except Err Bool) (fuel : Nat) (op : 
   | .error e => .error e
   | .ok n => .ok (n - 1)
 
+/-- `_selected_paths(...)` calling `collect_fields_untyped(..., skip_selection=skipFn)` (since /repo 4c46ee1 the
+    look-ahead helper passes the lenient `_skip_unless_unevaluable` = `skipSelectionT`) -/
+def selectedPathsG (skipFn : Dirs → Vars → Except Err Bool) :
+    Nat → List Sel → List Frag → Vars → Nat → (List String → Bool) → List String → Except Err (List (List String))
+  | 0, _, _, _, _, _, _ => .error .recursion
+  | fuel + 1, sels, frags, vars, maxdepth, pat, path =>
+    match collectFieldsUntypedG skipFn (fuel + 1) sels frags vars [] with
+    | .error e => .error e
+    | .ok (collected, _) =>
+      pathsLoop (fun s p => selectedPathsG skipFn fuel s frags vars maxdepth pat p) maxdepth pat path [] collected
+
+def selectedFieldsG (skipFn : Dirs → Vars → Except Err Bool) (fuel : Nat) (sub : List Sel) (frags : List Frag)
+    (vars : Vars) (maxdepth : Nat) (pat : List String → Bool) (path : List String) : Except Err (List (List String)) :=
+  match sub with
+  | [] => .ok []
+  | _ => selectedPathsG skipFn fuel sub frags vars maxdepth pat path
+
 /-- the rule after C19-Q1vars2.patch (raw JSON request variables, tolerant directive evaluation) -/
 def ruleRT (fuel limit : Nat) (filter : Option String) (doc : Doc) (defs : List (List VarDefR)) (raw : RawVars) :
     Except Err (List (Nat × Nat)) :=
